@@ -79,7 +79,9 @@ def action_stmts(prog, rule):
         if not (isinstance(c, dict) and c.get("n") == "yy_act"):
             continue
         for labels, stmts in switch_groups(sw):
-            nums = [int(y["l"].split(":")[1]) for s in stmts for y in walk(s) if isinstance(y.get("l"), str) and y["l"].startswith("lexer.ll:")]
+            # the trailing YY_BREAK sits on the line after the action: for a one-line action that is the next rule's line
+            body = [s for s in stmts if not (isinstance(s, dict) and s.get("k") == "break")]
+            nums = [int(y["l"].split(":")[1]) for s in body for y in walk(s) if isinstance(y.get("l"), str) and y["l"].startswith("lexer.ll:")]
             if nums and min(nums) >= first and max(nums) <= last:
                 hits.append(stmts)
     if len(hits) != 1:
@@ -103,8 +105,47 @@ def make_evaluator(prog, subqueries):
         t.m_children = Vec([], "children")
         t.m_str, t.m_cst, t.m_builtin, t.m_scope = StdStr(text), None, None, None
         return t
+    def memcpy(ev, o, a):
+        dst, src, n = a[0], a[1], int(a[2])
+        if not isinstance(dst, Ptr):
+            from cxxobj import Buf
+            if isinstance(dst, Buf):
+                dst = Ptr(dst, 0)
+        sc, dc = src.cells(), dst.cells()
+        if src.off + n > len(sc) or dst.off + n > len(dc):
+            from cxxobj import OutOfBounds
+            raise OutOfBounds("memcpy of %d bytes from a buffer of %d into a buffer of %d" % (n, len(sc) - src.off, len(dc) - dst.off))
+        for i in range(n):
+            dc[dst.off + i] = sc[src.off + i]
+        return dst
+
+    def strtoul(ev, o, a):
+        p, endp, base = a[0], a[1], int(a[2])
+        from cxxobj import Buf
+        if isinstance(p, Buf):
+            p = Ptr(p, 0)
+        cells = p.cells()
+        i = p.off
+        text = ""
+        while i < len(cells) and cells[i] not in (0, None):
+            text += chr(cells[i] & 0xff)
+            i += 1
+        import re as _re
+        digits = {8: "[0-7]", 10: "[0-9]", 16: "[0-9a-fA-F]"}.get(base)
+        if digits is None:
+            raise Broken("strtoul with base %s is not modelled" % base)
+        m = _re.match(r"[ \t\n\v\f\r]*[+-]?" + ("(?:0[xX])?" if base == 16 else "") + "(" + digits + "*)", text)
+        used = m.end() if m and m.group(1) else 0
+        val = int(m.group(1), base) if used else 0
+        if m and used and "-" in text[:m.start(1)]:
+            val = (-val) & ((1 << 64) - 1)
+        if endp is not None:
+            endp.store(Ptr(p.buf, p.off + used))
+        return min(val, (1 << 64) - 1)
     hooks = {
         "parse_subquery": subq,
+        "memcpy": memcpy,
+        "strtoul": strtoul,
         "yyget_text": lambda ev, o, a: a[0].text,
         "yyget_leng": lambda ev, o, a: a[0].leng,
         "method:release": lambda ev, o, a: o,
